@@ -1,0 +1,33 @@
+// Copyright 2026 The Go Authors. All rights reserved.
+// Use of this source code is governed by a BSD-style
+// license that can be found in the LICENSE file.
+
+//go:build verif
+
+package autocert
+
+import (
+	mathrand "math/rand"
+	"time"
+)
+
+// VerifRenewalNext calls domainRenewal.next for a Manager with the given
+// RenewBefore whose clock reads now. It exists only for conformance checking.
+func VerifRenewalNext(renewBefore time.Duration, now, notBefore, notAfter time.Time) time.Duration {
+	m := &Manager{RenewBefore: renewBefore, nowFunc: func() time.Time { return now }}
+	dr := &domainRenewal{m: m}
+	return dr.next(notBefore, notAfter)
+}
+
+// VerifSetNow installs the Manager's clock (the package's own test seam nowFunc).
+func VerifSetNow(m *Manager, now func() time.Time) { m.nowFunc = now }
+
+// VerifStopRenew stops the renewal timers of m.
+func VerifStopRenew(m *Manager) { m.stopRenew() }
+
+// VerifResetPseudoRand replaces the package-level jitter source (and its lock)
+// with a fresh one, so that a conformance run can continue after a call that
+// panicked while holding the lock.
+func VerifResetPseudoRand() {
+	pseudoRand = &lockedMathRand{rnd: mathrand.New(mathrand.NewSource(time.Now().UnixNano()))}
+}
